@@ -3,7 +3,7 @@
               walk threading an identity list, value templates not walked; true = it raises
    obj_ids t  the object identities of all fillable positions of the tree *)
 From Coq Require Import List PArith.
-From Hgm Require Import NumOps Agg Ops Forest Run RunId ForestFacts.
+From Hgm Require Import NumOps Agg Ops Forest Run RunId ForestFacts ForestSep.
 Import ListNotations.
 
 (* the guard raises exactly when some object occupies two fillable positions (siblings, cousins,
@@ -19,7 +19,36 @@ Proof.
   intros N w i d wt H. cbn [stepi]. destruct (geti w i) as [a t]. simpl in H. rewrite H. reflexivity.
 Qed.
 
+(* ... and the vectorised fill runs the same guard first *)
+Theorem C16_rejected_fillnp_changes_nothing : forall (N : num_ops) (w : @world N) i rows,
+  xcheck (snd (geti w i)) = true -> fst (stepi w (IBase (OFillNp i rows))) = w.
+Proof.
+  intros N w i rows H. cbn [stepi]. destruct (geti w i) as [a t]. simpl in H. rewrite H. reflexivity.
+Qed.
+
+(* a new collection built over a tree and one of the tree's own nodes (any depth, the tree itself
+   included), whether or not the tree was filled and checked before, is always rejected *)
+Lemma sub_it_in : forall (p : list nat) (t xt : itree), sub_it t p = Some xt -> In (it_id xt) (obj_ids t).
+Proof.
+  induction p as [|i p IH]; intros t xt H.
+  - destruct t as [id c ks ss tm]. cbn in H. injection H as <-. left. reflexivity.
+  - destruct t as [id c ks ss tm]. cbn [sub_it] in H. destruct (nth_error ks i) as [k0|] eqn:E; [|discriminate].
+    cbn [obj_ids]. right. apply in_or_app. left. apply in_concat. exists (obj_ids k0). split.
+    + apply in_map. eapply nth_error_In. exact E.
+    + apply IH. exact H.
+Qed.
+
+Theorem C16_graft_detected : forall (t xt : itree) p n c,
+  sub_it t p = Some xt -> xcheck (IT n c [t; xt] [] None) = true.
+Proof.
+  intros t xt p n c H. apply xcheck_iff. cbn [obj_ids map List.concat]. rewrite !app_nil_r.
+  intro ND. inversion ND as [|? ? _ ND']; subst. apply NoDup_app_inv in ND' as (_ & _ & D).
+  apply (D (it_id xt)); [eapply sub_it_in; exact H|]. destruct xt; left; reflexivity.
+Qed.
+
 Print Assumptions C16_detects_exactly.
+Print Assumptions C16_rejected_fillnp_changes_nothing.
+Print Assumptions C16_graft_detected.
 Print Assumptions C16_rejected_fill_changes_nothing.
 
 Example C16_example :
